@@ -162,6 +162,10 @@ def run(ctx):
         ctx.notes["bip85_spelled_requests_compared"] = hdreplay.bip85_spellings()
     except hdreplay.Mismatch as m:
         ctx.violation("bip85-call-spellings", m.family, m.what, {"mode": "bip85-spellings"})
+    try:
+        ctx.notes["generator_pairs_after_sent_skips"] = sum(hdreplay.generator_jumps(ctx.seed + r) for r in range(1 if ctx.quick else 12))
+    except hdreplay.Mismatch as m:
+        ctx.violation("address-generator-sent-skips", m.family, m.what, {"mode": "generator-jumps", "seed": ctx.seed})
     # binding self-check: a behaviour with one step's result tampered with must be flagged
     ctx.binding_selfcheck = selfcheck(bs)
     return ctx.finish(
@@ -201,6 +205,9 @@ def replay(ctx, path):
             hdreplay.long_scan(9000, 4400)
         elif rp.get("mode") == "bip85-spellings":
             hdreplay.bip85_spellings()
+        elif rp.get("mode") == "generator-jumps":
+            for r in range(12):
+                hdreplay.generator_jumps(rp.get("seed", 0) + r)
         elif rp.get("mode") == "twins":
             for sd in list(rp["seeds"]) + list(rp["seeds"])[:1]:
                 hdreplay.run_behaviour(rp["behaviour"], seed_hex=sd)
